@@ -254,6 +254,26 @@ register_b09(
                  "LineNumberTooLargeException, pydantic ValidationError"],
 )
 
+register_b09(
+    "C06", ["CocoVerif.Props.C06"], OB.c06, OB.c06_classify,
+    "every converted or refused program of the transpiler suite (reference graphs from generated GOTO/GOSUB/ON..GOTO/THEN n/"
+    "ELSE n/ON ERR/ON BRK statements incl. self references, line 0, missing lines 5/70000/99999, line numbers 32699/32700/40000), "
+    "both values of filter_unused_linenum (each case is also converted with the flag flipped) and add_suffix on/off; labels and "
+    "jump targets are read from the real output and from the source text independently; distinct = distinct request",
+    lean_extra=["CocoVerif.Spec.Targets"],
+    assumptions=["source line numbers pairwise distinct (cases with duplicates are skipped for the label checks)"],
+)
+
+register_b09(
+    "C11", ["CocoVerif.Props.C11"], OB.c11, lambda c, i, w: None,
+    "every converted program of the transpiler suite is converted again with each single option flipped (filter, init, width, "
+    "dependencies, string storage 32 and 77) and the pair is compared as the option documents; the CLI suite runs the real "
+    "start(argv) on scratch files over all 16 flag sets x file names (hyphen, blank, dots, no extension, upper case) x LF/CR/CRLF; "
+    "distinct = distinct request",
+    extra_suites=[{"name": "cli", "relevant": lambda c: True, "oracle": OB.c11_cli}],
+    lean_extra=["CocoVerif.Model.Cli"],
+)
+
 import suite_lib  # noqa: E402
 
 PROPS["C20"] = {
